@@ -68,7 +68,8 @@ FirstHdr(len) == IF len >= Hdr THEN 0 ELSE -1
 NxtHdr(at, clen, len) == IF clen < Hdr THEN -1
                          ELSE LET nxt == at + Al(clen) IN IF nxt + Hdr > len THEN -1 ELSE nxt
 
-\* AncillaryBuilder::new: set_len(0); ensure_init(); CMsgIter::new(ptr, capacity)
+\* AncillaryBuilder::new: set_len(0); ensure_init(); assert!(capacity >= CMSG_SPACE(0));
+\* CMsgIter::new(ptr, capacity)
 BuilderNew ==
   /\ phase = "new"
   /\ (IF IterNewPanics(cap)
